@@ -7,7 +7,7 @@
    not yet covered by a theorem are decided by the implementation <-> specification <->
    hardware differential run only (listed as unproved_forms in the evidence). *)
 From Coq Require Import ZArith Bool List.
-From AxV Require Import Bits Outcome Codes Iced State Rt Mem Trace Exec ExecP FrameTac FrameP RegFile RegsP ByteStore ISA CodeSem IsaP ControlFlow TraceP CfP StackP CallRetP.
+From AxV Require Import Bits Outcome Codes Iced State Rt Mem Trace Exec ExecP FrameTac FrameP RegFile RegsP ByteStore ISA CodeSem IsaP ControlFlow TraceP CfP StackP CallRetP MovxP Stack16P.
 From AxG Require Import Flags Regs Operand Helpers Dispatch Frame I_push I_pop I_call I_ret.
 Local Open Scope Z_scope.
 
@@ -135,7 +135,15 @@ Theorem C04_push_imm16 : forall c i s, Inv (mem s) -> i_code i = C_Push_imm16 ->
   (emu_push 2 v s = None /\ exists e, instr_push_imm16 c i s = (Err e, s)).
 Proof. exact push_imm16_exact. Qed.
 
-(* PUSH r/m16 is decided by the differential run and the golden known-finding witnesses only. *)
+Theorem C04_push_rm16 : forall c i s,
+  wf_regs s -> Inv (mem s) -> i_op_count i = 1 -> rm16_shape i 0 -> i_code i = C_Push_rm16 ->
+  match read_op i 0 16 s with
+  | Some v =>
+      (exists s', emu_push 2 v s = Some s' /\ instr_push_rm16 c i s = (Ok tt, s')) \/
+      (emu_push 2 v s = None /\ exists e, instr_push_rm16 c i s = (Err e, s))
+  | None => exists e, instr_push_rm16 c i s = (Err e, s)
+  end.
+Proof. exact push_rm16_exact. Qed.
 
 Print Assumptions cond_matches_sdm.
 Print Assumptions C04_push_is_hardware_conjugated.
@@ -150,3 +158,4 @@ Print Assumptions C04_push_imm.
 Print Assumptions C04_push_r16.
 Print Assumptions C04_pop_r16.
 Print Assumptions C04_push_imm16.
+Print Assumptions C04_push_rm16.
